@@ -105,6 +105,14 @@ class Program:
                 raise AnalysisError('cannot parse %s: %s' % (relpath, e))
             set_parents(tree)
             m = Module(relpath, src, tree)
+            # "extract method" undone: helpers unknown to the rule tables are inlined (sa/inline.py)
+            from .inline import make_effective
+            tree2, inl = make_effective(m)
+            if tree2 is not None:
+                ast.fix_missing_locations(tree2)
+                set_parents(tree2)
+                m = Module(relpath, src, tree2)
+            m.inlined_helpers = inl
             self._mods[relpath] = m
         return m
 
